@@ -362,3 +362,19 @@ Proof.
   { unfold copies. apply flat_map_ext. intros [p e|p]; [reflexivity|]. rewrite at_slice, nth_error_default. reflexivity. }
   reflexivity.
 Qed.
+
+(* ---------- C05: try_from_bits never panics ---------- *)
+Theorem try_from_bits_no_panic bits w : no_panic (try_from_bits bits w).
+Proof.
+  unfold try_from_bits.
+  destruct (w =? 0); [exact I|]. destruct (negb _); [exact I|].
+  destruct (find_size w _) as [s|]; [|exact I].
+  destruct (negb (tests_pass bits (actions_of s))); [exact I|].
+  destruct (has_padding_modules s) eqn:P; [|exact I].
+  pose proof (sweep _ pad_sweep s) as PS. cbv beta in PS. rewrite P in PS. cbn [negb orb] in PS. apply Nat.leb_le in PS.
+  destruct (geom_all s) as [_ _ _ _ _ _ gn _].
+  assert (length (copies bits (actions_of s)) = N.to_nat (content_width s * content_height s)) as L.
+  { rewrite copies_map, map_length, copy_pixels_length. rewrite <- gn. lia. }
+  rewrite L. replace (_ <? _)%nat with false by (symmetry; apply Nat.ltb_ge; lia).
+  destruct (_ && _ && _ && _); exact I.
+Qed.
